@@ -175,6 +175,8 @@ func main() {
 			fmt.Fprintln(w, fps(t[1:]))
 		case "REUSE":
 			fmt.Fprintln(w, reuse(t[1:]))
+		case "BIGA":
+			fmt.Fprintln(w, biga(t[1:]))
 		case "ARRH":
 			// ARRH <all|six> op ; op ; ...
 			var ops []opT
